@@ -398,7 +398,7 @@ class Monitor:
                             {"input": repr(wire)[:400], "label": label, "skeleton": skel, "via": via}, replay)
             else:
                 self.marshal_check(spec, wire, msg, label, skel, replay, via)
-        R.seen("nontrivial", "%s|%s|%s|%s" % (spec.name, skel, label, via))
+        self.nt("%s|%s|%s|%s" % (spec.name, skel, label, via))
         R.seen("outcomes", "%s|%s|%s" % (spec.name, label.split("=")[0][:30], outcome))
         R.sample({"class": spec.name, "input": repr(wire)[:200], "label": label, "outcome": outcome,
                   "oracle": [list(o) for o in offs][:3]}, kind="parse-" + outcome, every=397)
@@ -490,18 +490,6 @@ class Monitor:
                     w = list(wire)
                     w[spec.dictpos] = dict(d0, zz_unknown=v, x_custom=v)
                     self.parse_case(spec, w, "%s.<unknown>=%s" % (spec.dictname, lab), sname)
-                if tier == "thorough" and sname in ("full", "payload"):
-                    # pairs of simultaneously corrupted options
-                    keys = [o for o in spec.opts]
-                    small = [("null", None), ("0", 0), ("str-empty", ""), ("list-1", [1]), ("dict-a1", {"a": 1}), ("true", True)]
-                    for o1, o2 in itertools.combinations(keys, 2):
-                        for (l1, v1), (l2, v2) in itertools.product(small, small):
-                            n += 1
-                            if n % parts != part:
-                                continue
-                            w = list(wire)
-                            w[spec.dictpos] = dict(d0, **{o1.key: v1, o2.key: v2})
-                            self.parse_case(spec, w, "%s.%s=%s,%s=%s" % (spec.dictname, o1.key, l1, o2.key, l2), sname)
 
     # -- workload B: URIs --------------------------------------------------------------------------
     URI_ALPHABET = ["a", "z", "0", "_", ".", "#", " ", "A", "é", "\n"]
@@ -514,14 +502,40 @@ class Monitor:
                 if i % parts == part:
                     yield "".join(tup)
 
-    def workload_uri(self, part, parts, tier):
+    URI_RANDOM_ALPHABET = list("abcxyz019__...") + ["#", " ", "\t", "\n", "\r", "\x0b", "\x0c", "\x00", "\x1c", "\x85", "A", "Z", "é", "ß", "\u00a0",
+                                                   "\u2028", "\u3000", "\u0663", "\U0001f600", "-", "@", "/", ":", "%", "*", "..", ".#", "com", "example"]
+
+    def random_uris(self, rng, count):
+        A = self.URI_RANDOM_ALPHABET
+        good = "abcdefghijklmnopqrstuvwxyz0123456789_"
+        for _ in range(count):
+            r = rng.random()
+            if r < 0.5:       # well-formed components with 0..2 injected hostile symbols
+                comps = ["".join(rng.choice(good) for _ in range(rng.randint(1, 12))) for _ in range(rng.randint(1, 30))]
+                s = ".".join(comps)
+                for _k in range(rng.choice([0, 0, 1, 1, 2])):
+                    pos = rng.randint(0, len(s))
+                    s = s[:pos] + rng.choice(A) + s[pos:]
+            elif r < 0.8:
+                s = "".join(rng.choice(A) for _ in range(rng.choice([8, 9, 10, 16, 32, 64, 128, 300])))
+            else:
+                s = "".join(rng.choice(good + ".") for _ in range(rng.choice([8, 16, 255, 256, 1000, 5000]))) + rng.choice(["", "", ".", "\n", " ", "#", "\r\n", "\x00"])
+            yield s
+
+    def workload_uri(self, part, parts, tier, seed=0):
         R, M = self.R, self.M
-        maxlen = 5 if tier == "quick" else 6
+        maxlen = 5 if tier == "quick" else 7
         modes = []
         for strict in (False, True):
             for empty, kw in (("none", {}), ("last", {"allow_last_empty": True}), ("any", {"allow_empty_components": True})):
                 modes.append((strict, empty, dict(kw, strict=strict)))
-        for s in self.uri_strings(maxlen, part, parts):
+        strings = self.uri_strings(maxlen, part, parts)
+        if tier == "thorough":
+            rng = random.Random("%s/c08/uri/%d" % (seed, part))
+            strings = itertools.chain(strings, self.random_uris(rng, 1600000 // parts))
+        for s in strings:
+            if len(s) > maxlen:
+                R.count("uri_random_strings")
             for strict, empty, kw in modes:
                 R.count("evaluations")
                 R.count("uri_strings_judged")
@@ -549,8 +563,8 @@ class Monitor:
                 elif verdict == "ok":
                     R.count("uri_overstrict")     # not claimed by the property; counted only
                     R.seen("uri_overstrict_examples", s[:12])
-            if len(s) <= 4:
-                R.seen("nontrivial", "uri|" + s)
+            if len(s) <= 4 or len(s) > maxlen:
+                self.nt("uri|" + s)
         # through parse() at every kind of URI position, shorter strings
         targets = [
             ("Call", lambda u: [48, 5, {}, u]), ("Publish", lambda u: [16, 5, {}, u]), ("Abort", lambda u: [3, {}, u]),
@@ -560,7 +574,10 @@ class Monitor:
             ("Register", lambda u: [64, 5, {"match": "wildcard"}, u]), ("Interrupt", lambda u: [69, 5, {"reason": u}]),
             ("Unsubscribed", lambda u: [35, 5, {"reason": u}]), ("Unregistered", lambda u: [67, 5, {"reason": u}]),
         ]
-        for s in self.uri_strings(maxlen - 2, part, parts):
+        tstrings = self.uri_strings(maxlen - 2, part, parts)
+        if tier == "thorough":
+            tstrings = itertools.chain(tstrings, self.random_uris(random.Random("%s/c08/uri-parse/%d" % (seed, part)), 160000 // parts))
+        for s in tstrings:
             for ti, (cname, mk) in enumerate(targets):
                 self.parse_case(G.BY_NAME[cname], mk(s), "uri-enum", "uri-target-%d" % ti, via="uri:" + h(s, 8))
 
@@ -598,7 +615,7 @@ class Monitor:
                 if acc and bad:
                     R.violation("C08/%s/value/accepted-%s" % (fname, bad), "%s(%r) accepted" % (fname, v), {"value": repr(v)},
                                 {"kind": "validator", "fn": fname, "value": G.jenc(v)})
-                R.seen("nontrivial", "validator|%s|%s" % (fname, lab))
+                self.nt("validator|%s|%s" % (fname, lab))
 
     # -- workload D: serializers -----------------------------------------------------------------------
     def make_serializers(self):
@@ -653,7 +670,7 @@ class Monitor:
                             {"bytes": data[:300].hex()}, replay)
             else:
                 self.accepted_check(sid, batched, data, msgs, label, replay)
-        R.seen("nontrivial", "%s|%s" % (sid, h(data)))
+        self.nt("%s|%s" % (sid, h(data)))
         R.seen("outcomes", "unserialize|%s|%s|%s" % (sid, label.split("@")[0][:24], outcome))
         R.sample({"serializer": sid, "bytes": data[:80].hex(), "label": label, "outcome": outcome}, kind="unserialize-" + outcome, every=1499)
         return outcome
@@ -733,11 +750,8 @@ class Monitor:
                 self.unser_case(sid, ser, batched, data, "wrong-isBinary@%s" % spec.name, base == "json")
                 # D2: mutations
                 muts = []
-                if tier == "thorough" and len(data) <= 80:
-                    for i in range(len(data)):
-                        for b in range(256):
-                            if b != data[i]:
-                                muts.append(data[:i] + bytes([b]) + data[i + 1:])
+                if tier == "thorough":
+                    continue                # every offset x every value etc.: workload_serializers_deep (all shards share each message)
                 else:
                     for i in range(len(data)):
                         for b in {data[i] ^ 0x01, data[i] ^ 0x80, data[i] ^ 0x20, 0x00, 0xff, (data[i] + 1) & 0xff,
@@ -918,6 +932,378 @@ class Monitor:
                         self.unser_case(sid, ser, batched, data, "batch-" + lab)
 
 
+    # ================================================================================================
+    # thorough-only depth (quick never calls these)
+    # ================================================================================================
+    NT_CAP = 400000      # distinct 'nontrivial' keys kept per shard; beyond it cases are only counted (memory)
+
+    def nt(self, key):
+        R = self.R
+        if len(R.distinct.get("nontrivial", ())) < self.NT_CAP:
+            R.seen("nontrivial", key)
+        else:
+            R.count("nontrivial_beyond_cap")
+
+    # -- workload A2: PAIRS of simultaneously replaced places + random multi-place replacements ------
+    def pair_corpus(self):
+        c = [("null", None), ("true", True), ("0", 0), ("1", 1), ("-1", -1), ("2^53+1", 2 ** 53 + 1), ("1.5", 1.5), ("str-empty", ""),
+             ("str-a", "a"), ("str-a..b", "a..b"), ("str-nl", "a.b\n"), ("str-cryptobox", "cryptobox"), ("bytes-empty", b""), ("bytes", b"ab"),
+             ("list-empty", []), ("list-1", [1]), ("dict-empty", {}), ("dict-a1", {"a": 1})]
+        if "ndarray2" in G.EXOTIC:
+            c.append(("ndarray2", G.EXOTIC["ndarray2"]))
+        return c
+
+    @staticmethod
+    def put(spec, wire, place, v):
+        """wire with value v at place ('pos', idx) / ('opt', key); v may be G.ABSENT for options. None if not applicable."""
+        w = list(wire)
+        kind, where = place
+        if kind == "pos":
+            w[where] = v
+            return w
+        d = w[spec.dictpos]
+        if type(d) is not dict:
+            return None
+        d = dict(d)
+        if v is G.ABSENT:
+            d.pop(where, None)
+        else:
+            d[where] = v
+        w[spec.dictpos] = d
+        return w
+
+    def places(self, spec, wire):
+        pl = [("pos", idx) for idx in range(1, len(wire))]
+        if spec.dictpos is not None and spec.dictpos < len(wire):
+            pl += [("opt", o.key) for o in spec.opts]
+        return pl
+
+    def workload_pairs(self, part, parts, seed):
+        R = self.R
+        PC = self.pair_corpus()
+        n = 0
+        for spec in G.SPECS:
+            names = [s for s, _ in skeletons(spec)]
+            want = [s for s in ("full", "payload", "full+args+kwargs", "wildcard", "revocation") if s in names] or ["minimal"]
+            for sname, wire in skeletons(spec):
+                if sname not in want:
+                    continue
+                pl = self.places(spec, wire)
+                tn = G.trailing_names(spec, len(wire))
+
+                def pname(p):
+                    return tn[p[1]] if p[0] == "pos" else "%s.%s" % (spec.dictname, p[1])
+                for p1, p2 in itertools.combinations(pl, 2):
+                    if p2[0] == "opt" and p1 == ("pos", spec.dictpos):
+                        continue        # replacing the dict itself makes its options moot
+                    v1s = PC + ([("absent", G.ABSENT)] if p1[0] == "opt" else [])
+                    v2s = PC + ([("absent", G.ABSENT)] if p2[0] == "opt" else [])
+                    for (l1, v1) in v1s:
+                        for (l2, v2) in v2s:
+                            n += 1
+                            if n % parts != part:
+                                continue
+                            w = self.put(spec, wire, p1, v1)
+                            w = self.put(spec, w, p2, v2) if w is not None else None
+                            if w is None:
+                                continue
+                            R.count("pair_cases")
+                            self.parse_case(spec, w, "pair:%s=%s,%s=%s" % (pname(p1), l1, pname(p2), l2), sname)
+                R.seen("pair_classes", spec.name)
+        # random multi-place replacements (2..5 places at once, full corpus incl. nested corruptions), own stream per shard
+        rng = random.Random("%s/c08/multi/%d" % (seed, part))
+        CORPUS = corpus()
+        per_shard = 900000 // parts
+        specs = list(G.SPECS)
+        sk = {s.name: skeletons(s) for s in specs}
+        for k in range(per_shard):
+            spec = rng.choice(specs)
+            sname, wire = rng.choice(sk[spec.name])
+            pl = self.places(spec, wire)
+            chosen = rng.sample(pl, min(len(pl), rng.randint(2, 5)))
+            w = list(wire)
+            labs = []
+            for p in chosen:
+                if p[0] == "opt" and rng.random() < 0.3:
+                    vals = nested_corpus(spec.opt_by_key[p[1]]) or CORPUS
+                else:
+                    vals = CORPUS
+                lab, v = rng.choice(vals)
+                if p[0] == "opt" and rng.random() < 0.1:
+                    lab, v = "absent", G.ABSENT
+                w2 = self.put(spec, w, p, v)
+                if w2 is not None:
+                    w = w2
+                    labs.append("%s=%s" % (p[1], lab))
+            if rng.random() < 0.15:
+                w = w[:rng.randint(1, len(w))] if rng.random() < 0.5 else w + [rng.choice(CORPUS)[1] for _ in range(rng.randint(1, 2))]
+                labs.append("len%d" % len(w))
+            R.count("multi_cases")
+            self.parse_case(spec, w, "multi:" + ",".join(labs), sname)
+
+    # -- workload D+: serializer level in depth ---------------------------------------------------------
+    PLACEHOLDER = "¤vf-PLACEHOLDER-¤"
+
+    @staticmethod
+    def raw_constructs(base):
+        """(label, octets of ONE item) per wire format: everything the format can express that the plain encoder of the
+        harness does not emit by itself, well-formed and malformed.  Counts/lengths are kept small on purpose (a UBJSON
+        typed container of nulls/bools with a huge count is a decompression bomb in the third-party decoder - resource use
+        is not part of this property)."""
+        def X(hs):
+            hs = hs.replace(" ", "")
+            return bytes.fromhex(hs[:len(hs) - len(hs) % 2])
+        if base == "json":
+            txt = ["9007199254740993", "18446744073709551616", "-9007199254740993", "1" + "0" * 400, "9" * 5000, "-0", "0.0", "1e999", "-1e999",
+                   "NaN", "Infinity", "-Infinity", "1.0000000000000000000000001", "1E400", "1e-400", "5e-324", "01", "1.", ".5", "+1", "0x10",
+                   '"\\u0000"', '"\\u0000YWI="', '"\\u0000***"', '"\\u0000YQ"', '"\\u0000\\u0000"', '"\\u0000YWI=\\n"', '"a\\u0000b"', '"\\ud800"',
+                   '"\\udc00\\ud800"', '"\\ud83d\\ude00"', '"\\x41"', '"\\u12"', "'a'", "tru", "nul", "True", "None", "undefined", '{"a":1,"a":2}',
+                   '{"\\u0000YQ==":1}', "[1,]", "{,}", '{"a"}', "[", "]", "{", "}", '"', "", " ", "\t1\n", "//c\n1", "1 2", '"\x18"', "\x18",
+                   '"\\u0018"', "[[[[[[[[[[1]]]]]]]]]]", '{"a":{"b":{"c":null}}}', '"' + "a" * 70000 + '"']
+            return [("json:" + t[:24], t.encode("utf8")) for t in txt] + [("json:invalid-utf8", b'"\xff"'), ("json:overlong-utf8", b'"\xc0\xaf"'),
+                                                                         ("json:bom", b"\xef\xbb\xbf1"), ("json:utf16", '"a"'.encode("utf-16"))]
+        if base == "msgpack":
+            hx = ["c0", "c1", "c2", "c3", "c40161", "c400", "c5000161", "c60000000161", "c7010578", "c70005", "c800010578", "c9000000010578", "d40578",
+                  "d5057879", "d60578797a77", "d705" + "78" * 8, "d805" + "78" * 16, "d6ff00000000", "d6ffffffffff", "d7ff" + "00" * 8, "d7ff" + "ff" * 8,
+                  "c70cff" + "00" * 12, "c70cff" + "ff" * 12, "c703ff000000", "d4ff00", "ca3fc00000", "ca7fc00000", "cb7ff8000000000000", "cb7ff0000000000000",
+                  "cb8000000000000000", "cf" + "ff" * 8, "cf0020000000000001", "d3" + "80" + "00" * 7, "d3ffe0000000000000", "ccff", "d080", "cd0100", "d1ff00",
+                  "ce00010000", "d2ffff0000", "d90161", "da000161", "db0000000161", "a0", "a1ff", "a2c0af", "d901ff", "a3e282", "8101 02".replace(" ", ""),
+                  "81c4016102", "81910102", "81c001", "81ca3fc0000001", "82a16101a16102", "dc000101", "dd0000000101", "de0001a16101", "df00000001a16101",
+                  "90", "80", "9101", "9f", "8f", "dcffff", "deffff", "c4ff", "d9ff", "c7ff05", "ddffffffff", "c6ffffffff", "9191919191919191919101"]
+            return [("msgpack:" + h.replace(" ", ""), X(h)) for h in hx]
+        if base == "cbor":
+            hx = ["f6", "f7", "f4", "f5", "e0", "f0", "f3", "f800", "f81f", "f820", "f8ff", "fc", "fd", "fe", "ff", "f93e00", "f97e00", "f97c00", "f9fc00", "f90001",
+                  "f98000", "fa3fc00000", "fa7fc00000", "fb7ff8000000000000", "fb7ff0000000000000", "fb8000000000000000", "1b" + "ff" * 8, "1b0020000000000001",
+                  "3b" + "ff" * 8, "3b0020000000000000", "1c", "1d", "1e", "1f", "3f", "c249010000000000000000", "c349010000000000000000", "c240", "c340", "c201",
+                  "c26161", "c24100", "c4822119 6ab3".replace(" ", ""), "c582211 96ab3".replace(" ", ""), "c401", "c48101", "c482616101", "c4820101", "c48201c24101",
+                  "c4821b" + "ff" * 8 + "01", "c4823b" + "ff" * 8 + "01", "c074323032302d30312d30315430303a30303a30305a", "c06161", "c001", "c11a5e0be100",
+                  "c1fb41d782f840000000", "c1fb7ff8000000000000", "c16161", "c1c249010000000000000000", "d8184101", "d81841ff", "d81801", "d81e820102", "d81e820100",
+                  "d81e8101", "d81e01", "d8236128", "d823612a", "d82301", "d8246161", "d82401", "d82550" + "00" * 16, "d8254100", "d82501", "d9010282 0102".replace(" ", ""),
+                  "d901028180", "d9010201", "d9010280", "d90104447f000001", "d9010450" + "00" * 16, "d901044100", "d9010401", "d90105a144c0a800001818", "d90105a1447f00000118ff",
+                  "d9010501", "d81c80", "d81c8101", "d81d00", "d81d05", "d81d6161", "d81c81d81d00", "d81ca16161d81d00", "d9d9f701", "d9d9f7f6", "d9126761 78".replace(" ", ""),
+                  "dbffffffffffffffff01", "c6c601", "5f41614162ff", "5f ff".replace(" ", ""), "5f6161ff", "5f5f4161ffff", "7f6161ff", "7fff", "7f4161ff", "9f01ff", "9fff", "9f",
+                  "bf616101ff", "bfff", "bf6161ff", "bf", "61ff", "62c0af", "63e282ac", "63eda080", "a10102", "a1800 1".replace(" ", ""), "a1a00 1".replace(" ", ""), "a1f601",
+                  "a1f93e0001", "a141610 1".replace(" ", ""), "a2616101616102", "a16161", "80", "a0", "8101", "9800", "b800", "98ff", "b8ff", "58ff", "78ff", "5a40000000",
+                  "9a40000000", "8181818181818181818101", "d8408201 02".replace(" ", ""), "d9010382 0102".replace(" ", "")]
+            return [("cbor:" + h.replace(" ", ""), X(h)) for h in hx]
+        if base == "ubjson":
+            hx = ["5a", "4e", "4e4e5a", "54", "46", "6980", "697f", "55ff", "490080", "49ff7f", "75ffff", "6c00000080", "6cffffff7f", "6dffffffff", "4c" + "00" * 7 + "80",
+                  "4c" + "ff" * 7 + "7f", "4d" + "ff" * 8, "68003e", "68007e", "68007c", "640000c03f", "640000c07f", "44000000000000f87f", "44000000000000f07f",
+                  "440000000000000080", "4361", "43ff", "4300", "43c3", "485503312e35", "4855034e614e", "4855053165343030", "48550178", "485500", "48550431653939", "48690331",
+                  "485514" + "39" * 20, "535500", "535501ff", "535502c0af", "5369ff", "53690161", "5349010061", "536c0100000061", "534c" + "01" + "00" * 7 + "61", "5355ff", "53",
+                  "5b5d", "7b7d", "5b", "5d", "7b", "7d", "5b24552355020102", "5b246923550201ff", "5b244923550101 00".replace(" ", ""), "5b24752355010100", "5b246c23550101000000",
+                  "5b246d23550101000000", "5b244c2355010100000000000000", "5b244d2355010100000000000000", "5b246823550100 3e".replace(" ", ""), "5b2464235501 0000c03f".replace(" ", ""),
+                  "5b244423550100000000 0000f87f".replace(" ", ""), "5b2443235502 6162".replace(" ", ""), "5b244323550 1ff".replace(" ", ""), "5b2442235502 0102".replace(" ", ""),
+                  "5b24552355 00".replace(" ", ""), "5b24552369ff", "5b2455235503 0102".replace(" ", ""), "5b245a235503", "5b2454235502", "5b2446235502", "5b244e235502",
+                  "5b24532355015501 61".replace(" ", ""), "5b24482355015501 31".replace(" ", ""), "5b245b235501 5d".replace(" ", ""), "5b247b235501 7d".replace(" ", ""),
+                  "5b2455235b5502 55025d01020304".replace(" ", ""), "5b2455235b2455235502 020201020304".replace(" ", ""), "5b2455235b5500 55025d".replace(" ", ""),
+                  "5b2455235b5d", "5b2455235b24552355 00".replace(" ", ""), "5b2455235b55ff55ff5d", "5b2355025501 5502".replace(" ", ""), "5b23550 0".replace(" ", ""),
+                  "5b2355025501", "5b2355015b235501 5501".replace(" ", ""), "5b2455", "5b24", "5b2455230", "5b24552354", "5b2458235501 00".replace(" ", ""), "5b24245501",
+                  "7b2455235501 55016105".replace(" ", ""), "7b23550155016169 01".replace(" ", ""), "7b2355 00".replace(" ", ""), "7b245a23550155 0161".replace(" ", ""),
+                  "7b55016169015501616902 7d".replace(" ", ""), "7b5500 69017d".replace(" ", ""), "7b5501ff69017d", "7b69ff7d", "7b6901 61 5a".replace(" ", ""),
+                  "7b2454235502550161550162", "5b5b5b5b5b5b5b5b5b5b69015d5d5d5d5d5d5d5d5d5d", "5b4e69014e5d", "5b5a5a5d"]
+            return [("ubjson:" + h.replace(" ", ""), X(h)) for h in hx]
+        return []
+
+    def splice_sites(self, base, spec, wire):
+        """[(where, prefix, suffix)]: encodings of ``wire`` split around a placeholder item at every position and option value."""
+        ph = G.lib_encode(base, self.PLACEHOLDER)
+        out = []
+        for place in self.places(spec, wire):
+            w = self.put(spec, wire, place, self.PLACEHOLDER)
+            if w is None:
+                continue
+            try:
+                chunk = G.lib_encode(base, w)
+            except Exception:
+                continue
+            if chunk.count(ph) != 1:
+                continue
+            i = chunk.index(ph)
+            out.append((place[1], chunk[:i], chunk[i + len(ph):]))
+        return out
+
+    def mutants(self, data, rng, unit, part, parts, openers):
+        """Every offset i with (unit + i) % parts == part: all 255 replacement values, truncation, deletions, insertions,
+        swap, duplication, and 2-offset mutations."""
+        L = len(data)
+        for i in range(L + 1):
+            if (unit + i) % parts != part:
+                continue
+            yield "trunc", data[:i]
+            for ins in (b"\x00", b"\xff", b"\x18", b"\x80", bytes([rng.randrange(256)]), bytes([rng.randrange(256)]), rng.choice(openers), b"\x00\x00\x00\x01"):
+                yield "insert", data[:i] + ins + data[i:]
+            if i == L:
+                break
+            c = data[i]
+            for b in range(256):
+                if b != c:
+                    yield "byte", data[:i] + bytes([b]) + data[i + 1:]
+            for k in (1, 2, 4, 8):
+                if i + k <= L:
+                    yield "delete", data[:i] + data[i + k:]
+            yield "dup", data[:i] + data[i:i + 4] + data[i:]
+            if i + 1 < L:
+                yield "swap", data[:i] + bytes([data[i + 1], c]) + data[i + 2:]
+            for _ in range(6):
+                j = rng.randrange(L)
+                if j != i:
+                    m = bytearray(data)
+                    m[i] = rng.choice((0x00, 0xff, c ^ 0x01, c ^ 0x80, rng.randrange(256)))
+                    m[j] = rng.choice((0x00, 0xff, data[j] ^ 0x01, data[j] ^ 0x80, rng.randrange(256)))
+                    yield "byte2", bytes(m)
+
+    def workload_serializers_deep(self, part, parts, seed):
+        R = self.R
+        sers = self.make_serializers()
+        bases = []
+        for spec in G.SPECS:
+            for sname, wire in skeletons(spec):
+                if sname in ("minimal", "full", "payload", "full+args+kwargs", "revocation", "wildcard"):
+                    bases.append((spec, sname, wire))
+        OPEN = {"json": [b"[", b"{", b'"', b","], "msgpack": [b"\x91", b"\x81", b"\xdc\x00\x01", b"\xc4\x01"], "cbor": [b"\x81", b"\xa1", b"\x9f", b"\xd8\x1c"],
+                "ubjson": [b"[", b"{", b"[$U#U\x01", b"S"]}
+        unit = 0
+        for sid, ser, batched in sers:
+            base = sid.split(".")[0]
+            rng = random.Random("%s/c08/deep/%s/%d" % (seed, sid, part))
+            constructs = self.raw_constructs(base)
+            # D2+: every offset of every representative message
+            for spec, sname, wire in bases:
+                unit += 1
+                try:
+                    data = G.lib_frame(base, [G.lib_encode(base, wire)], batched)
+                except Exception:
+                    R.count("lib_encode_failed")
+                    continue
+                k = 0
+                for kind, mdata in self.mutants(data, rng, unit, part, parts, OPEN[base]):
+                    k += 1
+                    self.unser_case(sid, ser, batched, mdata, "mutation-%s@%s/%s" % (kind, spec.name, sname))
+                R.count("mutations_of_valid_encodings", k)
+                R.count("deep_mutations", k)
+                if unit % parts == part:
+                    for tail in (b"\x00", b"\xff", b"\x18", b"]", b"}", b" ", b"\n", b"\x00\x00\x00\x00", data, data[:len(data) // 2], data * 3, b"\xff" * 64):
+                        self.unser_case(sid, ser, batched, data + tail, "extension@%s/%s" % (spec.name, sname))
+                        self.unser_case(sid, ser, batched, tail + data, "prefixed@%s/%s" % (spec.name, sname))
+            # D1c+: raw constructs only this format can express, spliced in at every position and option value
+            for spec, sname, wire in bases:
+                if sname not in ("full", "payload", "revocation"):
+                    continue
+                unit += 1
+                if unit % parts != part:
+                    continue
+                for where, pre, suf in self.splice_sites(base, spec, wire):
+                    for lab, item in constructs:
+                        R.count("raw_constructs_judged")
+                        R.seen("raw_construct_kinds", lab[:40])
+                        self.unser_case(sid, ser, batched, G.lib_frame(base, [pre + item + suf], batched),
+                                        "raw@%s[%s]=%s" % (spec.name, where, lab[:30]))
+                # the same constructs as the whole message, as type code and as an extra trailing element
+                for lab, item in constructs:
+                    self.unser_case(sid, ser, batched, G.lib_frame(base, [item], batched), "raw-toplevel=%s" % lab[:30])
+            # D5+: batch framing corruption at every offset of every length prefix / delimiter
+            if batched:
+                some = [G.lib_encode(base, w) for _, sn, w in bases[1:40:5]]
+                for nmsg in (1, 2, 3, 5):
+                    unit += 1
+                    if unit % parts != part:
+                        continue
+                    chunks = some[:nmsg]
+                    good = G.lib_frame(base, chunks, True)
+                    if base == "json":
+                        ends, o = [], 0
+                        for c in chunks:
+                            o += len(c) + 1
+                            ends.append(o - 1)
+                        for e in ends:
+                            for b in range(256):
+                                if b != 0x18:
+                                    self.unser_case(sid, ser, batched, good[:e] + bytes([b]) + good[e + 1:], "batch-delimiter=%02x" % b)
+                            self.unser_case(sid, ser, batched, good[:e] + good[e + 1:], "batch-delimiter-deleted")
+                        for i in range(len(good) + 1):
+                            self.unser_case(sid, ser, batched, good[:i] + b"\x18" + good[i:], "batch-delimiter-inserted")
+                            self.unser_case(sid, ser, batched, good[:i] + b"\x18\x18" + good[i:], "batch-delimiter-inserted2")
+                    else:
+                        starts, o = [], 0
+                        for c in chunks:
+                            starts.append(o)
+                            o += 4 + len(c)
+                        for st in starts:
+                            for off in range(4):
+                                for b in range(256):
+                                    if b != good[st + off]:
+                                        self.unser_case(sid, ser, batched, good[:st + off] + bytes([b]) + good[st + off + 1:],
+                                                        "batch-prefix[%d]" % off)
+                            ln = int.from_bytes(good[st:st + 4], "big")
+                            for d in list(range(-ln, 0)) + list(range(1, 40)) + [255, 256, 65535, 65536, 2 ** 24, 2 ** 31 - 1 - ln, 2 ** 31 - ln, 2 ** 32 - 1 - ln]:
+                                self.unser_case(sid, ser, batched, good[:st] + (ln + d).to_bytes(4, "big") + good[st + 4:], "batch-prefix%+d" % d)
+                            for cut in range(5):
+                                self.unser_case(sid, ser, batched, good[:st + cut], "batch-cut-in-prefix")
+                            self.unser_case(sid, ser, batched, good[:st] + good[st + 4:], "batch-prefix-deleted")
+                            self.unser_case(sid, ser, batched, good[:st] + good[st:st + 4] + good[st:], "batch-prefix-doubled")
+                            self.unser_case(sid, ser, batched, good[:st] + good[st:st + 4][::-1] + good[st + 4:], "batch-prefix-little-endian")
+            # D4+: nesting swept densely around the decoders' depth guards, in several shapes
+            opener = {"json": b"[", "msgpack": b"\x91", "cbor": b"\x81", "ubjson": b"["}[base]
+            closer = {"json": b"]", "msgpack": b"", "cbor": b"", "ubjson": b"]"}[base]
+            inner = {"json": b"1", "msgpack": b"\x01", "cbor": b"\x01", "ubjson": b"i\x01"}[base]
+            mopen = {"json": b'{"a":', "msgpack": b"\x81\xa1a", "cbor": b"\xa1\x61a", "ubjson": b"{i\x01a"}[base]
+            mclose = {"json": b"}", "msgpack": b"", "cbor": b"", "ubjson": b"}"}[base]
+            depths = sorted(set(list(range(1, 40)) + list(range(40, 1200, 7)) + list(range(480, 530)) + list(range(900, 1100)) + [2000, 5000, 20000, 200000, 1000000]))
+            sites = self.splice_sites(base, G.BY_NAME["Call"], [48, 5, {"x_unknown": 1}, "com.example.a1", [1], {"k": 1}])
+            sites += self.splice_sites(base, G.BY_NAME["Challenge"], [4, "ticket", {"k": 1}])[-1:]
+            sites += self.splice_sites(base, G.BY_NAME["Hello"], [1, "realm1", {"roles": {"caller": {}}, "authextra": {"k": 1}}])[-1:]
+            for depth in depths:
+                unit += 1
+                if unit % parts != part:
+                    continue
+                shapes = [("list", opener * depth + inner + closer * depth), ("map", mopen * depth + inner + mclose * depth),
+                          ("alternating", (opener + mopen) * (depth // 2) + inner + (mclose + closer) * (depth // 2)), ("open", opener * depth),
+                          ("map-open", mopen * depth)]
+                for lab, item in shapes:
+                    self.unser_case(sid, ser, batched, G.lib_frame(base, [item], batched), "nesting-%s-%d" % (lab, depth))
+                    if depth <= 1200 and lab in ("list", "map", "alternating"):
+                        for where, pre, suf in sites:
+                            R.count("nesting_in_message")
+                            self.unser_case(sid, ser, batched, G.lib_frame(base, [pre + item + suf], batched), "nesting-%s-%d@%s" % (lab, depth, where))
+            # D3+: random octets, several streams ("seeds' worth"), many lengths; token noise incl. the raw constructs
+            tokens = [c[1] for c in constructs if len(c[1]) <= 24] + OPEN[base] + [closer or b"\x00", inner]
+            for stream in range(6):
+                srng = random.Random("%s/c08/noise/%s/%d/%d" % (seed, sid, stream, part))
+                for _ in range(180000 // parts):
+                    r = srng.random()
+                    if r < 0.35:
+                        data = bytes(srng.getrandbits(8) for _ in range(srng.choice([0, 1, 2, 3, 4, 5, 6, 7, 8, 9, 12, 16, 24, 33, 64, 100, 257, 1000])))
+                        lab = "noise"
+                    elif r < 0.8:
+                        data = b"".join(srng.choice(tokens) for _ in range(srng.randint(1, 40)))
+                        lab = "token-noise"
+                    else:
+                        spec, sname, wire = srng.choice(bases)      # valid message with a few random byte edits
+                        m = bytearray(G.lib_encode(base, wire))
+                        for _e in range(srng.randint(2, 5)):
+                            op = srng.random()
+                            pos = srng.randrange(len(m))
+                            if op < 0.6:
+                                m[pos] = srng.randrange(256)
+                            elif op < 0.8:
+                                del m[pos]
+                            else:
+                                m[pos:pos] = srng.choice(tokens)
+                        data = bytes(m)
+                        lab = "multi-edit"
+                    if batched:
+                        fr = srng.random()
+                        if base != "json" and fr < 0.8:
+                            data = len(data).to_bytes(4, "big") + data
+                        elif base == "json" and fr < 0.8:
+                            data += b"\x18"
+                    R.count("random_octet_cases")
+                    self.unser_case(sid, ser, batched, data, lab)
+                # all 3-octet strings are out of reach (16.7 M per variant): a fresh sample per stream
+                for _ in range(40000 // parts):
+                    self.unser_case(sid, ser, batched, bytes(srng.getrandbits(8) for _ in range(3)), "octets3")
+
     # -- workload E: FlatBuffers serializer (totality only: no independent decoder) -----------------------
     def workload_flatbuffers(self, part, parts, tier, seed):
         R = self.R
@@ -934,7 +1320,7 @@ class Monitor:
                 if sname not in ("minimal", "full", "payload", "full+args+kwargs"):
                     continue
                 n += 1
-                if n % parts != part:
+                if n % parts != part and tier != "thorough":
                     continue
                 try:
                     data, _ = ser.serialize(self.klass[spec.name].parse(G.clone(wire)))
@@ -943,9 +1329,32 @@ class Monitor:
                     R.count("flatbuffers_encode_unsupported")      # not every class has a FlatBuffers schema
                     continue
                 R.seen("flatbuffers_classes", spec.name)
+                if tier == "thorough":
+                    # every shard takes its share of the OFFSETS of every message: all values, 2-offset edits, truncation, insertion
+                    for i in range(len(data) + 1):
+                        if (n + i) % parts != part:
+                            continue
+                        self.fbs_case(ser, sid, data[:i], "truncation@%s/%s" % (spec.name, sname))
+                        for ins in (b"\x00", b"\xff", b"\x04\x00\x00\x00", bytes([rng.randrange(256)])):
+                            self.fbs_case(ser, sid, data[:i] + ins + data[i:], "insertion@%s/%s" % (spec.name, sname))
+                        if i == len(data):
+                            break
+                        for b in range(256):
+                            if b != data[i]:
+                                self.fbs_case(ser, sid, data[:i] + bytes([b]) + data[i + 1:], "mutation@%s/%s" % (spec.name, sname))
+                        for _k in range(12):
+                            m = bytearray(data)
+                            m[i] = rng.choice((0x00, 0xff, 0x7f, 0x80, data[i] ^ 0x01, rng.randrange(256)))
+                            j = rng.randrange(len(data))
+                            m[j] = rng.choice((0x00, 0xff, 0x7f, 0x80, data[j] ^ 0x01, rng.randrange(256)))
+                            self.fbs_case(ser, sid, bytes(m), "mutation2@%s/%s" % (spec.name, sname))
+                        if i + 4 <= len(data):      # 32-bit offsets / vtable entries are the structure of the format
+                            for v in (0, 1, 4, len(data) - 1, len(data), len(data) + 1, 0x7fffffff, 0x80000000, 0xffffffff, 0xfffffffc):
+                                self.fbs_case(ser, sid, data[:i] + (v & 0xffffffff).to_bytes(4, "little") + data[i + 4:], "offset32@%s/%s" % (spec.name, sname))
+                    continue
                 muts = [data]
                 for i in range(len(data)):
-                    picks = range(256) if (tier == "thorough" and len(data) <= 160) else {data[i] ^ 0x01, data[i] ^ 0x80, 0x00, 0xff, rng.randrange(256)}
+                    picks = range(256) if tier == "thorough" else {data[i] ^ 0x01, data[i] ^ 0x80, 0x00, 0xff, rng.randrange(256)}
                     for b in picks:
                         if b != data[i]:
                             muts.append(data[:i] + bytes([b]) + data[i + 1:])
@@ -954,12 +1363,12 @@ class Monitor:
                     muts.append(data + tail)
                 for mdata in muts:
                     self.fbs_case(ser, sid, mdata, "mutation@%s/%s" % (spec.name, sname))
-        for k in range(600 if tier == "quick" else 20000):
+        for k in range(600 if tier == "quick" else 600000):
             n += 1
             if n % parts != part:
                 rng.random()
                 continue
-            ln = rng.choice([0, 1, 2, 3, 4, 7, 8, 12, 16, 24, 32, 64, 200])
+            ln = rng.choice([0, 1, 2, 3, 4, 7, 8, 12, 16, 24, 32, 64, 200] if tier == "quick" else [0, 1, 2, 3, 4, 5, 6, 7, 8, 12, 16, 20, 24, 32, 48, 64, 100, 200, 500])
             data = bytes(rng.getrandbits(8) for _ in range(ln))
             if rng.random() < 0.5 and ln >= 8:
                 data = rng.choice([4, 8, 12, 16]).to_bytes(4, "little") + data[4:]     # plausible root offset
@@ -984,13 +1393,13 @@ class Monitor:
             if not all(isinstance(m, self.M.Message) for m in msgs):
                 R.violation("C08/unserialize/flatbuffers/returned-non-message", "unserialize() returned %r" % ([type(m) for m in msgs],),
                             {"bytes": data[:300].hex()}, replay)
-        R.seen("nontrivial", "%s|%s" % (sid, h(data)))
+        self.nt("%s|%s" % (sid, h(data)))
 
 
 # ------------------------------------------------------------------------------------------------
 def shards(tier, seed):
     n = NSHARDS[tier]
-    return [{"name": "part-%d" % i, "fw": "tx" if i % 2 else "aio", "timeout": 1800,
+    return [{"name": "part-%d" % i, "fw": "tx" if i % 2 else "aio", "timeout": 1800 if tier == "quick" else 6 * 3600,
              "params": {"part": i, "parts": n, "tier": tier, "seed": seed}} for i in range(n)]
 
 
@@ -1013,17 +1422,42 @@ def start(R):
     return Monitor(R, (message, serializer, exception))
 
 
+def limit_memory(gib=8):
+    """Address-space cap for the thorough workers: a few octets can make a third-party decoder allocate gigabytes (UBJSON
+    typed container of nulls/bools with a 32-bit count); with the cap that ends in MemoryError (-> ProtocolError through
+    unserialize()'s wrapper) instead of taking the machine down.  Resource use is not judged by this property."""
+    try:
+        import resource
+        soft, hard = resource.getrlimit(resource.RLIMIT_AS)
+        want = gib * 2 ** 30
+        if hard == resource.RLIM_INFINITY or want <= hard:
+            resource.setrlimit(resource.RLIMIT_AS, (want, hard))
+    except Exception:
+        pass
+
+
 def run_shard(params, R):
     mon = start(R)
     if mon is None:
         return
     tier, seed, part, parts = params["tier"], params["seed"], params["part"], params["parts"]
-    mon.workload_parse(part, parts, tier)
+    import time
+
+    def timed(name, fn, *a):
+        t0 = time.process_time()
+        fn(*a)
+        R.count("cpu_ms_" + name, int((time.process_time() - t0) * 1000))     # evidence of where the budget goes; never a verdict
+    timed("parse", mon.workload_parse, part, parts, tier)
     if part == 0:
-        mon.workload_validators()
-    mon.workload_uri(part, parts, tier)
-    mon.workload_serializers(part, parts, tier, seed)
-    mon.workload_flatbuffers(part, parts, tier, seed)
+        timed("validators", mon.workload_validators)
+    if tier == "thorough":
+        limit_memory()
+        timed("pairs", mon.workload_pairs, part, parts, seed)
+    timed("uri", mon.workload_uri, part, parts, tier, seed)
+    timed("serializers", mon.workload_serializers, part, parts, tier, seed)
+    if tier == "thorough":
+        timed("serializers_deep", mon.workload_serializers_deep, part, parts, seed)
+    timed("flatbuffers", mon.workload_flatbuffers, part, parts, tier, seed)
     # a skeleton the code rejects means table and code disagree about what is valid: inconclusive, not a verdict
     if R.counters.get("skeletons_rejected", 0) == 0:
         R.count("harness_in_sync")
